@@ -443,6 +443,60 @@ impl<'a> Lang<'a> {
     }
 }
 
+/// the function-call texts of the function-nesting family: (level 1, level 2, arity variants)
+pub fn fn_nesting_calls() -> (Vec<String>, Vec<String>, Vec<String>) {
+    let fns = ["length", "count", "value", "match", "search"];
+    let arity = |f: &str| if f == "match" || f == "search" { 2 } else { 1 };
+    let simple: Vec<String> = ["1", "'a'", "null", "@.a", "@['a'][0]", "$.a", "@", "@.*", "@..a", "@[0,1]", "@[?@.a]", "@.a==1", "(@.a)", "!@.a", "@.a&&@.b", "!(!@.a)", "!(!@.*)", "(!@.a)", "((@.a))", "!((@.a))", "(!(!@.a))", "!(!(!(!@.*)))", "! ( ! @.a )", "(@.*)", "(@.a==1)", "!(@.a==1)"].iter().map(|s| s.to_string()).collect();
+    let mut level1: Vec<String> = vec![];
+    for f in fns {
+        if arity(f) == 1 {
+            for a in &simple {
+                level1.push(format!("{}({})", f, a));
+            }
+        } else {
+            for a in &simple {
+                for b in ["'x'", "@.b", "@.*", "1"] {
+                    level1.push(format!("{}({},{})", f, a, b));
+                }
+            }
+            for b in &simple {
+                level1.push(format!("{}(@.a,{})", f, b));
+            }
+        }
+    }
+    let mut level2: Vec<String> = vec![];
+    for f in fns {
+        for inner in &level1 {
+            if arity(f) == 1 {
+                level2.push(format!("{}({})", f, inner));
+            } else {
+                level2.push(format!("{}({},'x')", f, inner));
+                level2.push(format!("{}(@.a,{})", f, inner));
+            }
+        }
+    }
+    // surplus and missing arguments: every call of level 1 with one more argument of every kind (valid or not),
+    // appended or prepended, and every call with its last argument removed
+    let mut arity: Vec<String> = vec![];
+    for call in &level1 {
+        let inner = &call[..call.len() - 1];
+        for extra in simple.iter().chain(level1.iter().take(60)) {
+            arity.push(format!("{},{})", inner, extra));
+        }
+        if let Some(open) = call.find('(') {
+            for extra in ["1", "@.a", "@.*", "length(@.*)", "count(1)", "@[9007199254740992]"] {
+                arity.push(format!("{}({},{}", &call[..open], extra, &call[open + 1..]));
+            }
+        }
+    }
+    for f in fns {
+        arity.push(format!("{}()", f));
+        arity.push(format!("{}(@.a,@.b,@.c)", f));
+    }
+    (level1, level2, arity)
+}
+
 /// space 4: one-position families
 fn families(l: &Lang, thorough: bool) -> Acc {
     let mut acc = Acc::new();
@@ -641,55 +695,7 @@ fn families(l: &Lang, thorough: bool) -> Acc {
     // function nestings: every argument kind in every parameter position of the five functions, two levels deep,
     // in every context a function expression can appear in
     {
-        let fns = ["length", "count", "value", "match", "search"];
-        let arity = |f: &str| if f == "match" || f == "search" { 2 } else { 1 };
-        let simple: Vec<String> = ["1", "'a'", "null", "@.a", "@['a'][0]", "$.a", "@", "@.*", "@..a", "@[0,1]", "@[?@.a]", "@.a==1", "(@.a)", "!@.a", "@.a&&@.b", "!(!@.a)", "!(!@.*)", "(!@.a)", "((@.a))", "!((@.a))", "(!(!@.a))", "!(!(!(!@.*)))", "! ( ! @.a )", "(@.*)", "(@.a==1)", "!(@.a==1)"].iter().map(|s| s.to_string()).collect();
-        let mut level1: Vec<String> = vec![];
-        for f in fns {
-            if arity(f) == 1 {
-                for a in &simple {
-                    level1.push(format!("{}({})", f, a));
-                }
-            } else {
-                for a in &simple {
-                    for b in ["'x'", "@.b", "@.*", "1"] {
-                        level1.push(format!("{}({},{})", f, a, b));
-                    }
-                }
-                for b in &simple {
-                    level1.push(format!("{}(@.a,{})", f, b));
-                }
-            }
-        }
-        let mut level2: Vec<String> = vec![];
-        for f in fns {
-            for inner in &level1 {
-                if arity(f) == 1 {
-                    level2.push(format!("{}({})", f, inner));
-                } else {
-                    level2.push(format!("{}({},'x')", f, inner));
-                    level2.push(format!("{}(@.a,{})", f, inner));
-                }
-            }
-        }
-        // surplus and missing arguments: every call of level 1 with one more argument of every kind (valid or not),
-        // appended or prepended, and every call with its last argument removed
-        let mut arity: Vec<String> = vec![];
-        for call in &level1 {
-            let inner = &call[..call.len() - 1];
-            for extra in simple.iter().chain(level1.iter().take(60)) {
-                arity.push(format!("{},{})", inner, extra));
-            }
-            if let Some(open) = call.find('(') {
-                for extra in ["1", "@.a", "@.*", "length(@.*)", "count(1)", "@[9007199254740992]"] {
-                    arity.push(format!("{}({},{}", &call[..open], extra, &call[open + 1..]));
-                }
-            }
-        }
-        for f in fns {
-            arity.push(format!("{}()", f));
-            arity.push(format!("{}(@.a,@.b,@.c)", f));
-        }
+        let (level1, level2, arity) = fn_nesting_calls();
         for call in level1.iter().chain(level2.iter()).chain(arity.iter()) {
             for c in [format!("$[?{}]", call), format!("$[?!{}]", call), format!("$[?{}==1]", call), format!("$[?true!={}]", call), format!("$[?({})||@.z]", call), format!("$[?{}=={}]", call, call)] {
                 l.examine(&mut acc, &c, "family: function nestings", true);
@@ -762,6 +768,64 @@ fn families(l: &Lang, thorough: bool) -> Acc {
                     format!("{}", arg),
                 ] {
                     l.examine(&mut acc, &format!("$[?{}]", call), "family: slices and indices in function arguments", true);
+                }
+            }
+        }
+    }
+    // every pair of function calls of the first nesting level on the two sides of a comparison (each side must be a
+    // ValueType function on its own: a check that looks at one side only lets the other through)
+    {
+        let (level1, _, _) = fn_nesting_calls();
+        let part = level1
+            .par_iter()
+            .map(|a| {
+                let mut acc = Acc::new();
+                for b in &level1 {
+                    l.examine(&mut acc, &format!("$[?{}=={}]", a, b), "family: function calls on both sides of a comparison", true);
+                }
+                l.examine(&mut acc, &format!("$[?{}<1]", a), "family: function calls on both sides of a comparison", true);
+                l.examine(&mut acc, &format!("$[?1>={}]", a), "family: function calls on both sides of a comparison", true);
+                acc
+            })
+            .reduce(Acc::new, Acc::merge);
+        acc = acc.merge(part);
+    }
+    // multi-byte characters before a function expression, with a blank at every place the grammar allows one in and
+    // around the call (byte offsets and character positions part ways after the first multi-byte character)
+    {
+        let templates = ["[?length(~@.a~)~>~1~]", "[?~match(~@.a~,~'x'~)~]", "[?count(~@.*~)~==~1~&&~search(~@.b~,~'y'~)]", "[?~value(~@.a~)~==~'\u{e9}'~||~!~match(~@.b~,~\"z\"~)~]", "[?@.c~==~1~&&~length(~value(~@.*~)~)~<~3]"];
+        let mut prefixes: Vec<String> = vec![];
+        for k in 0..=8 {
+            prefixes.push(format!("$.{}a", "\u{e9}".repeat(k)));
+            prefixes.push(format!("$['{}']", "\u{1d11e}".repeat(k)));
+            prefixes.push(format!("$[?@.n=='{}']..a", "\u{540d}".repeat(k)));
+        }
+        for p in &prefixes {
+            for t in templates {
+                let sites = t.matches('~').count();
+                // no blank, one blank at each site, a blank at every site, two blanks at each site
+                l.examine(&mut acc, &format!("{}{}", p, t.replace('~', "")), "family: multi-byte prefix before a function expression", true);
+                l.examine(&mut acc, &format!("{}{}", p, t.replace('~', " ")), "family: multi-byte prefix before a function expression", true);
+                for s in 0..sites {
+                    for blank in [" ", "  ", "\t"] {
+                        let mut k = 0;
+                        let text: String = t
+                            .chars()
+                            .map(|c| {
+                                if c == '~' {
+                                    k += 1;
+                                    if k - 1 == s {
+                                        blank.to_string()
+                                    } else {
+                                        String::new()
+                                    }
+                                } else {
+                                    c.to_string()
+                                }
+                            })
+                            .collect();
+                        l.examine(&mut acc, &format!("{}{}", p, text), "family: multi-byte prefix before a function expression", true);
+                    }
                 }
             }
         }
@@ -984,6 +1048,16 @@ pub fn run(prop: &str, tier: &str) -> i32 {
         total = total.merge(a);
         let t0 = std::time::Instant::now();
         let a = stage("programmatically built name selectors (odd names and escape-token texts, 5 quotings, 4 shapes)", crate::checks::robust::built_names(&run), t0);
+        total = total.merge(a);
+        let t0 = std::time::Instant::now();
+        let built = match crate::checks::robust::built_queries(&run) {
+            Ok(a) => a,
+            Err(e) => {
+                eprintln!("MACHINERY: {}", e);
+                return 2;
+            }
+        };
+        let a = stage("programmatically built function expressions (well-typed and ill-typed), evaluated on the panel", built, t0);
         total = total.merge(a);
         let t0 = std::time::Instant::now();
         let a = stage("regular-expression pattern pipeline (stress patterns and nesting ladders 1..300)", crate::checks::robust::regex_patterns(&run), t0);
